@@ -33,6 +33,8 @@ pub struct TrainSnap {
     pub nodes: Vec<NodeSnap>,
     pub idx_fixed: usize,
     pub idx_free: usize,
+    pub idx_front: usize,
+    pub idx_back: usize,
     pub finished: bool,
     pub blocked: bool,
     pub spacing: f64,
@@ -41,6 +43,10 @@ pub struct TrainSnap {
 #[derive(Debug, Clone)]
 pub struct Snap {
     pub fin: bool,
+    /// 0 after one outer-loop move, 1 after one tentative advance inside the inner loop, 2 right after a rewind, 3 final
+    pub phase: u8,
+    /// complete authority table: per link, per authority (train, arrive_entry, arrive_exit, clear_entry, clear_exit, offset_front, offset_back)
+    pub auths: Vec<Vec<(usize, [f64; 6])>>,
     pub moved: usize,
     pub trains: Vec<TrainSnap>,
     /// links_blocked as train indices (0 = none)
@@ -69,6 +75,8 @@ fn take_snap(v: &DispatchView) -> Snap {
                 .collect(),
             idx_fixed: t.verif_idx_fixed(),
             idx_free: t.verif_idx_free(),
+            idx_front: t.verif_idx_front(),
+            idx_back: t.verif_idx_back(),
             finished: t.is_finished(),
             blocked: t.is_blocked(),
             spacing: t.verif_time_spacing().value,
@@ -77,6 +85,17 @@ fn take_snap(v: &DispatchView) -> Snap {
         .collect();
     Snap {
         fin: v.phase == DispatchPhase::Final,
+        phase: match v.phase {
+            DispatchPhase::AfterMove => 0,
+            DispatchPhase::AfterAdvance => 1,
+            DispatchPhase::AfterRewind => 2,
+            DispatchPhase::Final => 3,
+        },
+        auths: v
+            .link_disp_auths
+            .iter()
+            .map(|a| a.iter().map(|d| (d.train_idx.map(|y| u16::from(y) as usize).unwrap_or(0), [d.arrive_entry.value, d.arrive_exit.value, d.clear_entry.value, d.clear_exit.value, d.offset_front.value, d.offset_back.value])).collect())
+            .collect(),
         moved: v.train_idx_moved.map(|x| u16::from(x) as usize).unwrap_or(0),
         trains,
         links_blocked: v.links_blocked.iter().map(|x| x.map(|y| u16::from(y) as usize).unwrap_or(0)).collect(),
@@ -137,7 +156,11 @@ pub fn oracle_c04(t: &Topo, s: &Snap, checks: &mut u64) -> Fails {
     let mut f: Fails = vec![];
     let w = windows(s);
     let links = &t.net.0;
-    let phase = if s.fin { "final" } else { "intermediate" };
+    let phase = match s.phase {
+        3 => "final",
+        1 => "tentative",
+        _ => "intermediate",
+    };
     for i in 0..w.len() {
         for j in (i + 1)..w.len() {
             let (a, b) = (&w[i], &w[j]);
@@ -192,6 +215,69 @@ pub fn oracle_c04(t: &Topo, s: &Snap, checks: &mut u64) -> Fails {
     f
 }
 
+fn same_f(a: f64, b: f64) -> bool {
+    a == b || (a.is_nan() && b.is_nan()) || (a.is_finite() && b.is_finite() && (a - b).abs() <= 1e-6)
+}
+
+/// Rewind is the exact inverse of the tentative advances of one outer-loop iteration: between the previous
+/// after-move snapshot (every train at its fixed position) and the rewind only the moved train touched the
+/// authority table and links_blocked, so right after the rewind both must equal what they were then.
+pub fn oracle_rewind(snaps: &[Snap], n_links: usize, checks: &mut u64) -> Fails {
+    let mut f: Fails = vec![];
+    let empty_auths: Vec<Vec<(usize, [f64; 6])>> = (0..n_links).map(|_| vec![(0usize, [f64::NEG_INFINITY, f64::NEG_INFINITY, f64::NEG_INFINITY, f64::NEG_INFINITY, f64::INFINITY, f64::INFINITY])]).collect();
+    let empty_blocked = vec![0usize; n_links];
+    let mut base: Option<&Snap> = None;
+    for s in snaps {
+        if s.phase == 2 {
+            let (a0, b0) = match base {
+                Some(b) => (&b.auths, &b.links_blocked),
+                None => (&empty_auths, &empty_blocked),
+            };
+            *checks += 2;
+            if *b0 != s.links_blocked {
+                let l = (0..n_links).find(|l| b0[*l] != s.links_blocked[*l]).unwrap_or(0);
+                f.push(("rewind-does-not-restore-links-blocked@rewind".into(), format!("train {} rewound: link {} was blocked by train {} before its tentative advance and is blocked by train {} after the rewind", s.moved, l, b0[l], s.links_blocked[l])));
+            }
+            let mut bad: Option<String> = None;
+            for l in 0..n_links.min(s.auths.len()).min(a0.len()) {
+                if a0[l].len() != s.auths[l].len() {
+                    bad = Some(format!("link {l}: {} authorities before the tentative advance, {} after the rewind", a0[l].len(), s.auths[l].len()));
+                    break;
+                }
+                for (x, y) in a0[l].iter().zip(s.auths[l].iter()) {
+                    if x.0 != y.0 || !(0..6).all(|k| same_f(x.1[k], y.1[k])) {
+                        bad = Some(format!("link {l}: authority {:?} before the tentative advance, {:?} after the rewind", x, y));
+                        break;
+                    }
+                }
+                if bad.is_some() {
+                    break;
+                }
+            }
+            if let Some(b) = bad {
+                f.push(("rewind-does-not-restore-authorities@rewind".into(), format!("train {} rewound: {b}", s.moved)));
+            }
+            // the rewound train itself is back at its fixed node with no timed node past it
+            if s.moved >= 1 && s.moved <= s.trains.len() {
+                let t = &s.trains[s.moved - 1];
+                *checks += 1;
+                if t.idx_free != t.idx_fixed {
+                    f.push(("rewound-train-not-at-fixed-node@rewind".into(), format!("train {}: free node {} fixed node {}", s.moved, t.idx_free, t.idx_fixed)));
+                }
+                if t.nodes.iter().skip(t.idx_free).any(|n| n.time.is_finite()) {
+                    f.push(("timed-node-beyond-free-node@rewind".into(), format!("train {}: a node at or after the free node {} keeps a pass time", s.moved, t.idx_free)));
+                }
+            }
+        }
+        if s.phase == 0 {
+            base = Some(s);
+        }
+    }
+    f.sort_by(|a, b| a.0.cmp(&b.0));
+    f.dedup_by(|a, b| a.0 == b.0);
+    f
+}
+
 /// black-box necessary condition on the returned plan alone: front-occupancy intervals of opposing trains
 pub fn oracle_c04_blackbox(t: &Topo, plan: &[Vec<LinkIdxTime>], checks: &mut u64) -> Fails {
     let mut f: Fails = vec![];
@@ -218,7 +304,25 @@ pub fn oracle_c04_blackbox(t: &Topo, plan: &[Vec<LinkIdxTime>], checks: &mut u64
     f
 }
 
-pub fn oracle_c05(t: &Topo, sc: &Scenario, nets: &[EstTimeNet], res: &Result<Vec<Vec<LinkIdxTime>>, String>, fin: Option<&Snap>, checks: &mut u64) -> Fails {
+/// per train: did a re-route ever re-label nodes the train had already passed (a node that keeps its pass time gets
+/// another estimated-time node, or timed nodes are inserted / removed before the free node)?  The timed prefix of a
+/// train's path may only grow (advance) or shrink (rewind) between two snapshots; anything else is such a re-label.
+pub fn relabelled_under_train(snaps: &[Snap], n_trains: usize) -> Vec<bool> {
+    let mut out = vec![false; n_trains];
+    for w in snaps.windows(2) {
+        for ti in 0..n_trains.min(w[0].trains.len()).min(w[1].trains.len()) {
+            let pa: Vec<(usize, u8, usize)> = w[0].trains[ti].nodes.iter().take_while(|n| n.time.is_finite()).map(|n| (n.link, n.ty, n.est_idx)).collect();
+            let pb: Vec<(usize, u8, usize)> = w[1].trains[ti].nodes.iter().take_while(|n| n.time.is_finite()).map(|n| (n.link, n.ty, n.est_idx)).collect();
+            let k = pa.len().min(pb.len());
+            if pa[..k] != pb[..k] {
+                out[ti] = true;
+            }
+        }
+    }
+    out
+}
+
+pub fn oracle_c05(t: &Topo, sc: &Scenario, nets: &[EstTimeNet], res: &Result<Vec<Vec<LinkIdxTime>>, String>, fin: Option<&Snap>, relabelled: &[bool], checks: &mut u64) -> Fails {
     let mut f: Fails = vec![];
     let links = &t.net.0;
     match res {
@@ -275,7 +379,8 @@ pub fn oracle_c05(t: &Topo, sc: &Scenario, nets: &[EstTimeNet], res: &Result<Vec
                         let got = ts.nodes[wv[1]].time - ts.nodes[wv[0]].time;
                         *checks += 1;
                         if got < need - 1e-6 {
-                            f.push(("faster-than-free-running@run_dispatch".into(), format!("train {}: {} s between links {} and {} but its own free-running time is {} s", ti + 1, got, ts.nodes[wv[0]].link, ts.nodes[wv[1]].link, need)));
+                            let key = if relabelled.get(ti).copied().unwrap_or(false) { "faster-than-free-running@run_dispatch:re-routed-under-train" } else { "faster-than-free-running@run_dispatch" };
+                            f.push((key.into(), format!("train {}: {} s between links {} and {} but its own free-running time is {} s", ti + 1, got, ts.nodes[wv[0]].link, ts.nodes[wv[1]].link, need)));
                             break;
                         }
                     }
@@ -337,10 +442,33 @@ pub fn events(ex: &Exec) -> Vec<&'static str> {
     let mut ev: Vec<&'static str> = vec![];
     let mut prev: Option<&Snap> = None;
     for s in &ex.snaps {
+        if s.phase == 2 {
+            ev.push("rewind");
+            // how far was the tentative advance that is undone here: clear events beyond the fixed node
+            if let Some(p) = prev {
+                if s.moved >= 1 && s.moved <= p.trains.len() {
+                    let t = &p.trains[s.moved - 1];
+                    let n_clear = t.nodes.iter().take(t.idx_free).skip(t.idx_fixed).filter(|n| n.ty == 1).count();
+                    let n_arrive = t.nodes.iter().take(t.idx_free).skip(t.idx_fixed).filter(|n| n.ty == 0).count();
+                    if n_clear >= 2 {
+                        ev.push("rewind-across-two-clears");
+                    }
+                    if n_arrive >= 2 {
+                        ev.push("rewind-across-two-arrivals");
+                    }
+                    if t.idx_fixed > 0 {
+                        ev.push("rewind-to-mid-route");
+                    }
+                }
+            }
+        }
+        if s.phase == 1 && s.moved >= 1 && s.moved <= s.trains.len() && s.trains[s.moved - 1].idx_free > s.trains[s.moved - 1].idx_fixed {
+            ev.push("tentative-advance-beyond-fixed");
+        }
         if let Some(p) = prev {
             for (a, b) in p.trains.iter().zip(s.trains.iter()) {
                 if b.idx_free < a.idx_free {
-                    ev.push("rewind");
+                    ev.push("free-node-moved-back");
                 }
                 let pa: Vec<usize> = a.nodes.iter().filter(|n| n.ty == 0).map(|n| n.link).collect();
                 let pb: Vec<usize> = b.nodes.iter().filter(|n| n.ty == 0).map(|n| n.link).collect();
@@ -356,7 +484,7 @@ pub fn events(ex: &Exec) -> Vec<&'static str> {
             }
         }
         for t in &s.trains {
-            if !t.finished && t.idx_free > 0 && t.idx_free < t.nodes.len() {
+            if s.phase != 1 && !t.finished && t.idx_free > 0 && t.idx_free < t.nodes.len() {
                 ev.push("paused-mid-route");
             }
         }
@@ -485,6 +613,7 @@ fn judge_inner(which: &str, t: &Topo, sc: &Scenario, ex: &Exec, checks: &mut u64
         for s in &ex.snaps {
             f.extend(oracle_c04(t, s, checks));
         }
+        f.extend(oracle_rewind(&ex.snaps, t.net.0.len(), checks));
         if let Ok(p) = &ex.result {
             f.extend(oracle_c04_blackbox(t, p, checks));
         }
@@ -494,7 +623,8 @@ fn judge_inner(which: &str, t: &Topo, sc: &Scenario, ex: &Exec, checks: &mut u64
             f.push((format!("panic@run_dispatch:{class}"), format!("panic instead of a plan or an error: {}", p.chars().take(300).collect::<String>())));
         } else {
             let fin = ex.snaps.iter().rev().find(|s| s.fin);
-            f.extend(oracle_c05(t, sc, &ex.nets, &ex.result, fin, checks));
+            let rel = relabelled_under_train(&ex.snaps, sc.trains.len());
+            f.extend(oracle_c05(t, sc, &ex.nets, &ex.result, fin, &rel, checks));
             if ex.result.is_ok() && fin.is_none() {
                 f.push(("final-snapshot-missing@hook".into(), "observer did not see the final state".into()));
             }
@@ -510,7 +640,7 @@ impl Prop for DispatchProp {
         self.which
     }
     fn rule(&self, tier: Tier) -> String {
-        format!("E-SHAPE over dispatch scenarios: topologies {{plain line, single passing siding, two-track terminals (two origin / destination segments), two sidings, a corridor with an intermediate terminal (trains with different destinations following each other), Y junction with three terminals, diamond crossing with symmetric lockout declarations}}{} (10 km terminal links, every link with its flip) x EVERY ordered sequence of n <= {} trains, each train = (origin/destination pair incl. both directions) x departure in {{0, 60, 300, 900}} s (all relative orders and ties) x length in {{360 m, 1080 m}} (later positions restricted as stated in DESIGN); estimated-time networks are the real make_est_times outputs. One real run_dispatch per scenario; hook H1 exposes the dispatch state after every train move and at the end (states = snapshots, transitions = train moves). Oracle {} on every snapshot and on the returned plan. distinct_nontrivial = distinct (topology, outcome, set of events: paused mid-route / blocked behind a train / followed on a link / rewind / re-route / diverged / waited / stuck-error) signatures.", if tier.is_thorough() { " x middle-link length in {0.5, 3, 20 km}" } else { " (middle links 3 km)" }, if tier.is_thorough() { "4 (3 on topologies with more than 16 train descriptors)" } else { "3 (third train short; on topologies with more than 16 train descriptors its departure is 0 or 300 s)" }, self.which)
+        format!("E-SHAPE over dispatch scenarios: topologies {{plain line, single passing siding, two-track terminals (two origin / destination segments), two sidings, a corridor with an intermediate terminal (trains with different destinations following each other), Y junction with three terminals, diamond crossing with symmetric lockout declarations, double track with a crossover link between single-track terminals (opposing trains re-routed onto the parallel track; a held follower standing on the terminal link is rewound), two-track terminals joined by double track with a crossover, two double-track sections joined by a single-track bridge, full double track with a scissors crossover between two-track terminals}}{} (10 km terminal links, every link with its flip) x EVERY ordered sequence of n <= {} trains, each train = (origin/destination pair incl. both directions) x departure in {{0, 60, 300, 900}} s (all relative orders and ties) x length in {{360 m, 1080 m}} (later positions restricted as stated in DESIGN); estimated-time networks are the real make_est_times outputs. One real run_dispatch per scenario; hook H1 exposes the dispatch state after every tentative advance inside the inner loop, after every rewind, after every completed train move and at the end (states = snapshots, transitions = advances). Oracle {} on every snapshot (tentative ones included) and on the returned plan; for C04 additionally: right after a rewind the authority table and links_blocked equal what they were at the previous completed move, the rewound train is at its fixed node and keeps no pass time beyond it. distinct_nontrivial = distinct (topology, outcome, set of events: paused mid-route / blocked behind a train / followed on a link / tentative advance / rewind / re-route / diverged / free node moved back / waited / stuck-error) signatures.", if tier.is_thorough() { " x middle-link length in {0.5, 3, 20 km}" } else { " (middle links 3 km)" }, if tier.is_thorough() { "4 (3 on topologies with more than 16 train descriptors)" } else { "3 (third train short; on topologies with more than 16 train descriptors its departure is 0 or 300 s)" }, self.which)
     }
     fn assumptions(&self) -> Vec<String> {
         vec![
@@ -553,7 +683,7 @@ impl Prop for DispatchProp {
                         continue;
                     }
                     ctx.stats.states += ex.snaps.len() as u64;
-                    ctx.stats.transitions += ex.snaps.iter().filter(|s| !s.fin).count() as u64;
+                    ctx.stats.transitions += ex.snaps.iter().filter(|s| s.phase == 0 || s.phase == 1).count() as u64;
                     let mut checks = 0;
                     let fails = judge(self.which, t, sc, &ex, &mut checks);
                     ctx.checks(checks);
@@ -601,7 +731,17 @@ impl Prop for DispatchProp {
         let ex = execute(ti, t, &sc, &mut cache);
         let mut checks = 0;
         let v = judge(self.which, t, &sc, &ex, &mut checks);
-        let obs = format!("result={:?} snaps={} events={:?}", ex.result.as_ref().map(|p| p.iter().map(|x| x.iter().map(|l| (l.link_idx.idx(), l.time.value)).collect::<Vec<_>>()).collect::<Vec<_>>()), ex.snaps.len(), events(&ex));
+        let trace: Vec<String> = ex.snaps.iter().map(|s| format!("{}{}:{}", ["M", "a", "R", "F"][s.phase as usize], s.moved, s.trains.iter().map(|t| format!("{}/{}/{}{}", t.idx_fixed, t.idx_free, t.nodes.len(), if t.blocked { "b" } else { "" })).collect::<Vec<_>>().join(","))).collect();
+        if std::env::var("MC_LOUD").is_ok() {
+            for s in &ex.snaps {
+                eprintln!("--- {}{}", ["M", "a", "R", "F"][s.phase as usize], s.moved);
+                for (i, t) in s.trains.iter().enumerate() {
+                    eprintln!("  train {} fixed={} free={} front={} back={} blocked={} nodes={}", i + 1, t.idx_fixed, t.idx_free, t.idx_front, t.idx_back, t.blocked, t.nodes.iter().map(|n| format!("{}{}@{:.0}", ["A", "C", "f"][n.ty as usize], n.link, n.time)).collect::<Vec<_>>().join(" "));
+                }
+                eprintln!("  links_blocked={:?}", s.links_blocked);
+            }
+        }
+        let obs = format!("result={:?} snaps={} events={:?} trace={:?}", ex.result.as_ref().map(|p| p.iter().map(|x| x.iter().map(|l| (l.link_idx.idx(), l.time.value)).collect::<Vec<_>>()).collect::<Vec<_>>()), ex.snaps.len(), events(&ex), trace);
         ReplayOutcome { violations: v, observation: obs }
     }
 }
